@@ -68,20 +68,69 @@ type verdict struct {
 	reason string
 }
 
-// validateLog feeds the emission log to a fresh validator. late selects the last instant of each
-// message's round window instead of the first. Returns the per-message verdicts.
-func validateLog(c *qnet.Cfg, p *qnet.Pool, log []int32, from []spectypes.OperatorID, post, late bool) []verdict {
-	mv, rec := env.NewValidator(post)
-	topic := fmt.Sprintf("ssv.v2.%d", subnetOf(c.KeySet.ValidatorPK.Serialize()))
-	out := make([]verdict, 0, len(log))
-	for li, id := range log {
-		m := p.List[id]
-		a, b := roundWindow(c.Role, m.Signed.Message.Round)
-		off := a
-		if late {
-			off = b
+// item is one emitted message as it travels: the consensus message of the qnet log, or a
+// pre-/post-consensus partial-signature message of the duty runner around it.
+type item struct {
+	payload []byte // encoded SSVMessage
+	from    spectypes.OperatorID
+	round   specqbft.Round // round window it is sent in
+	desc    string
+	msgID   int32 // qnet pool id for consensus messages, -1 otherwise
+	decided bool  // emitter was already decided when it sent it
+}
+
+func partialSig(c *qnet.Cfg, op spectypes.OperatorID, typ spectypes.PartialSigMsgType, round specqbft.Round) item {
+	slot := phase0.Slot(c.Height)
+	sk := c.KeySet.Shares[op]
+	root := sha256.Sum256([]byte(fmt.Sprintf("c10 duty object %d %d", typ, slot)))
+	pm := spectypes.PartialSignatureMessages{Type: typ, Slot: slot, Messages: []*spectypes.PartialSignatureMessage{{
+		PartialSignature: sk.SignByte(root[:]).Serialize(), SigningRoot: root, Signer: op}}}
+	r, err := spectypes.ComputeSigningRoot(pm, spectypes.ComputeSignatureDomain(c.Domain, spectypes.PartialSignatureType))
+	if err != nil {
+		ev.Fatal("%v", err)
+	}
+	signed := &spectypes.SignedPartialSignatureMessage{Message: pm, Signature: sk.SignByte(r[:]).Serialize(), Signer: op}
+	data, err := signed.Encode()
+	if err != nil {
+		ev.Fatal("%v", err)
+	}
+	payload, err := (&spectypes.SSVMessage{MsgType: spectypes.SSVPartialSignatureMsgType, MsgID: spectypes.MessageIDFromBytes(c.Identifier), Data: data}).Encode()
+	if err != nil {
+		ev.Fatal("%v", err)
+	}
+	kind := "post-consensus"
+	if typ != spectypes.PostConsensusPartialSig {
+		kind = "pre-consensus"
+	}
+	return item{payload: payload, from: op, round: round, desc: fmt.Sprintf("%s partial signature by %d", kind, op), msgID: -1}
+}
+
+func preType(role spectypes.BeaconRole) (spectypes.PartialSigMsgType, bool) {
+	switch role {
+	case spectypes.BNRoleProposer:
+		return spectypes.RandaoPartialSig, true
+	case spectypes.BNRoleAggregator:
+		return spectypes.SelectionProofPartialSig, true
+	case spectypes.BNRoleSyncCommitteeContribution:
+		return spectypes.ContributionProofs, true
+	}
+	return 0, false
+}
+
+// items turns one execution into what the correct operators emitted, in order: pre-consensus
+// partial signatures when the duty starts (roles that have them), the consensus messages of the
+// qnet log, and each operator's post-consensus partial signature right after the first emission
+// it made as a decided operator (its decision) - or at the end if it decided silently.
+func items(c *qnet.Cfg, p *qnet.Pool, w *qnet.World) []item {
+	var out []item
+	if pt, ok := preType(c.Role); ok {
+		for _, h := range c.Honest {
+			out = append(out, partialSig(c, h, pt, 1))
 		}
-		env.SetClock(0, off)
+	}
+	posted := map[spectypes.OperatorID]bool{}
+	for i, id := range w.LogIDs {
+		m := p.List[id]
 		data, err := m.Signed.Encode()
 		if err != nil {
 			ev.Fatal("%v", err)
@@ -90,15 +139,43 @@ func validateLog(c *qnet.Cfg, p *qnet.Pool, log []int32, from []spectypes.Operat
 		if err != nil {
 			ev.Fatal("%v", err)
 		}
-		wire := payload
+		out = append(out, item{payload: payload, from: w.LogFrom[i], round: m.Signed.Message.Round, desc: p.Describe(id), msgID: id, decided: w.LogDecided[i]})
+		// the aggregated decided message is the first thing an operator emits upon deciding
+		if len(m.Signed.Signers) > 1 && !posted[w.LogFrom[i]] {
+			posted[w.LogFrom[i]] = true
+			out = append(out, partialSig(c, w.LogFrom[i], spectypes.PostConsensusPartialSig, m.Signed.Message.Round))
+		}
+	}
+	for _, o := range w.Ops {
+		if s := o.Inst(c.Height).State; s.Decided && !posted[o.ID] {
+			out = append(out, partialSig(c, o.ID, spectypes.PostConsensusPartialSig, s.Round))
+		}
+	}
+	return out
+}
+
+// validateLog feeds the emitted items to a fresh validator. late selects the last instant of each
+// message's round window instead of the first. Returns the per-item verdicts.
+func validateLog(c *qnet.Cfg, its []item, post, late bool) []verdict {
+	mv, rec := env.NewValidator(post)
+	topic := fmt.Sprintf("ssv.v2.%d", subnetOf(c.KeySet.ValidatorPK.Serialize()))
+	out := make([]verdict, 0, len(its))
+	for _, it := range its {
+		a, b := roundWindow(c.Role, it.round)
+		off := a
+		if late {
+			off = b
+		}
+		env.SetClock(0, off)
+		wire := it.payload
 		if post {
-			sig := env.Sign(int(from[li]), payload)
-			wire = make([]byte, 0, 264+len(payload))
+			sig := env.Sign(int(it.from), it.payload)
+			wire = make([]byte, 0, 264+len(it.payload))
 			wire = append(wire, sig...)
 			var le [8]byte
-			binary.LittleEndian.PutUint64(le[:], uint64(from[li]))
+			binary.LittleEndian.PutUint64(le[:], uint64(it.from))
 			wire = append(wire, le[:]...)
-			wire = append(wire, payload...)
+			wire = append(wire, it.payload...)
 		}
 		t := topic
 		rec.Last = ""
@@ -122,10 +199,10 @@ var (
 	kFlag     = flag.Int("k", -1, "debug: deviation bound")
 )
 
-func describe(p *qnet.Pool, log []int32, vs []verdict) []string {
+func describe(its []item, vs []verdict) []string {
 	var out []string
-	for i, id := range log {
-		s := p.Describe(id)
+	for i, it := range its {
+		s := it.desc
 		if vs != nil {
 			s += "  => " + vs[i].reason
 		}
@@ -154,39 +231,52 @@ func runJob(r *ev.Run, c *qnet.Cfg, k int, faultFree bool) jobOut {
 		}
 		seenLogs[key] = true
 		out.Logs++
+		its := items(c, pool, w)
 		for _, post := range []bool{false, true} {
 			for _, late := range []bool{false, true} {
-				vs := validateLog(c, pool, w.LogIDs, w.LogFrom, post, late)
+				vs := validateLog(c, its, post, late)
 				out.Messages += len(vs)
 				for i, v := range vs {
-					m := pool.List[w.LogIDs[i]].Signed
-					kind := [...]string{"proposal", "prepare", "commit", "round-change"}[m.Message.MsgType]
-					if len(m.Signers) > 1 {
-						kind = "decided"
+					it := its[i]
+					kind := "partial-signature"
+					round := it.round
+					if it.msgID >= 0 {
+						m := pool.List[it.msgID].Signed
+						kind = [...]string{"proposal", "prepare", "commit", "round-change"}[m.Message.MsgType]
+						if len(m.Signers) > 1 {
+							kind = "decided"
+						}
+						if m.Message.MsgType == specqbft.RoundChangeMsgType && m.Message.RoundChangePrepared() {
+							kind = "round-change(prepared)"
+						}
+						if m.Message.MsgType == specqbft.ProposalMsgType && m.Message.Round > 1 {
+							kind = "proposal(justified)"
+						}
+					} else if strings.HasPrefix(it.desc, "pre-") {
+						kind = "pre-consensus partial-signature"
+					} else {
+						kind = "post-consensus partial-signature"
 					}
-					if m.Message.MsgType == specqbft.RoundChangeMsgType && m.Message.RoundChangePrepared() {
-						kind = "round-change(prepared)"
+					out.Hist[kind+" r"+fmt.Sprint(round)+" -> "+v.reason]++
+					art := func() map[string]interface{} {
+						return map[string]interface{}{"net": qnet.Artefact(w), "post_fork": post, "late": late, "message_index": i, "emission_log": describe(its, vs)}
 					}
-					if m.Message.MsgType == specqbft.ProposalMsgType && m.Message.Round > 1 {
-						kind = "proposal(justified)"
-					}
-					out.Hist[kind+" r"+fmt.Sprint(m.Message.Round)+" -> "+v.reason]++
 					if v.res == pubsub.ValidationReject {
 						who := "honest "
-						if w.LogDecided[i] {
+						if it.decided {
 							who = "already-decided operator's "
 						}
 						sig := who + kind + " rejected: " + strings.TrimPrefix(v.reason, "reject: ")
-						r.Violate(sig, fmt.Sprintf("a message emitted by correct operator %d (%s) is classified reject by a correct peer's validator: %s", w.LogFrom[i], pool.Describe(w.LogIDs[i]), v.reason),
-							"c10-qnet", map[string]interface{}{"net": qnet.Artefact(w), "post_fork": post, "late": late, "message_index": i, "emission_log": describe(pool, w.LogIDs, vs)}, v.reason, "accept or ignore")
+						r.Violate(sig, fmt.Sprintf("a message emitted by correct operator %d (%s) is classified reject by a correct peer's validator: %s", it.from, it.desc, v.reason),
+							"c10-qnet", art(), v.reason, "accept or ignore")
 					}
 					if faultFree && len(w.Trace) > 0 && v.res != pubsub.ValidationAccept && noDeviation(w) {
-						r.Violate("fault-free message not accepted: "+kind+" "+v.reason, fmt.Sprintf("fault-free in-order timely run: %s is not accepted: %s", pool.Describe(w.LogIDs[i]), v.reason),
-							"c10-qnet", map[string]interface{}{"net": qnet.Artefact(w), "post_fork": post, "late": late, "message_index": i, "emission_log": describe(pool, w.LogIDs, vs)}, v.reason, "accept")
+						r.Violate("fault-free message not accepted: "+kind+" "+v.reason, fmt.Sprintf("fault-free in-order timely run: %s is not accepted: %s", it.desc, v.reason),
+							"c10-qnet", art(), v.reason, "accept")
 					}
 				}
 				if out.Logs%200 == 1 && !post && !late && len(out.Samples) < 2 {
-					out.Samples = append(out.Samples, map[string]interface{}{"configuration": c.String(), "emission_log_with_verdicts": describe(pool, w.LogIDs, vs)})
+					out.Samples = append(out.Samples, map[string]interface{}{"configuration": c.String(), "emission_log_with_verdicts": describe(its, vs)})
 				}
 			}
 		}
@@ -356,8 +446,9 @@ func replay(r *ev.Run) {
 	for _, e := range evs {
 		w.Apply(e)
 	}
-	vs := validateLog(c, pool, w.LogIDs, w.LogFrom, t["post_fork"].(bool), t["late"].(bool))
-	for _, l := range describe(pool, w.LogIDs, vs) {
+	its := items(c, pool, w)
+	vs := validateLog(c, its, t["post_fork"].(bool), t["late"].(bool))
+	for _, l := range describe(its, vs) {
 		fmt.Println(l)
 	}
 	for i, x := range vs {
